@@ -1,6 +1,6 @@
 ------------------------------ MODULE MCLoader ------------------------------
 (* Bounded scenarios for Loader.tla and emission of behaviours for replay.  *)
-EXTENDS Loader, Json
+EXTENDS Loader, LoaderNames, Json
 
 CONSTANTS Scenario,     \* "arb" | "split" | "glob"
           MaxItems,     \* arb: items per file
@@ -10,38 +10,14 @@ CONSTANTS Scenario,     \* "arb" | "split" | "glob"
 VARIABLE nsplit
 mcvars == <<vars, nsplit>>
 
-\* ---------------------------------------------------------------- names
-\* byte order: '.' (2E) < 'a' < 'b' < 'c' < 'h' < 'l' < 'm' < 'r' < 's' < 't' < 'x'
-MCCharOrder == <<".", "a", "b", "c", "d", "h", "l", "m", "r", "s", "t", "x">>
-N_m == <<"m", ".", "l">>
-N_a == <<"a", ".", "l">>
-N_b == <<"b", ".", "l">>
-N_ab == <<"a", "b", ".", "l">>
-N_c == <<"c", ".", "l">>
-N_h == <<".", "h", ".", "l">>
-N_t == <<"c", ".", "t">>
-N_x == <<"x", ".", "l">>
-D_r == <<"r">>
-D_s == <<"s">>
-D_d == <<"d">>
-D_t == <<"t">>
-Star_l == <<"*", ".", "l">>
-Q_l == <<"?", ".", "l">>
-A_star == <<"a", "*">>
-Star == <<"*", ".", "?">>     \* files only: directory names in the universes have no dot
-DStar == <<"*">>               \* used for directory components only
-
 P(up, comps) == [up |-> up, comps |-> comps]
-MCRoot == <<D_r, N_m>>
 
 \* ---------------------------------------------------------------- arbitrary small file systems
 \* three files (root, a sibling, one in a sub-directory); includes that hit, miss, cycle,
 \* go up, and glob; every content of <= MaxItems items
-ArbUniverse == {MCRoot, <<D_r, N_a>>, <<D_r, D_s, N_b>>}
 ArbPatterns == {P(0, <<N_a>>), P(0, <<D_s, N_b>>), P(1, <<N_m>>), P(1, <<N_a>>), P(0, <<Star_l>>), P(0, <<N_x>>)}
 ArbPatternsT == ArbPatterns \cup {P(0, <<N_b>>), P(0, <<D_s, Star_l>>), P(1, <<Star_l>>), P(0, <<DStar, N_b>>), P(0, <<N_m>>)}
 
-ArbUniverseT == ArbUniverse \cup {<<D_r, D_s, N_a>>}
 
 SeqsUpTo(S, n) == UNION {[1..m -> S] : m \in 0..n}
 \* entry ids are positions, so a content is determined by which slots are includes
@@ -52,13 +28,10 @@ ArbContents(pats) == {Number(c) : c \in SeqsUpTo(ArbItems(pats), MaxItems)}
 \* ---------------------------------------------------------------- glob semantics
 \* the root includes one pattern; any subset of a universe with dot-files, another
 \* extension, a longer name and two directories exists
-GlobUniverse == {MCRoot, <<D_r, N_a>>, <<D_r, N_b>>, <<D_r, N_ab>>, <<D_r, N_h>>, <<D_r, N_t>>,
-                 <<D_r, D_s, N_a>>, <<D_r, D_s, N_c>>, <<D_r, D_d, N_a>>, <<D_r, D_d, N_x>>}
 GlobPatterns == {P(0, <<Star_l>>), P(0, <<Q_l>>), P(0, <<A_star>>), P(0, <<Star>>), P(0, <<N_h>>),
                  P(0, <<D_s, Star_l>>), P(0, <<DStar, N_a>>), P(0, <<DStar, Star_l>>)}
 
 \* ---------------------------------------------------------------- splitting
-SplitUniverse == {MCRoot, <<D_r, N_a>>, <<D_r, N_b>>, <<D_r, D_s, N_a>>, <<D_r, D_s, N_c>>, <<D_r, D_s, D_t, N_b>>}
 SplitPatterns == {P(0, <<N_a>>), P(0, <<N_b>>), P(0, <<D_s, N_a>>), P(0, <<D_s, N_c>>), P(0, <<D_s, D_t, N_b>>), P(0, <<D_t, N_b>>),
                   P(1, <<N_a>>), P(1, <<N_b>>), P(2, <<N_a>>), P(2, <<N_b>>), P(1, <<D_s, N_c>>), P(1, <<N_c>>),
                   P(0, <<Star_l>>), P(0, <<D_s, Star_l>>), P(1, <<Star_l>>), P(0, <<Q_l>>), P(0, <<DStar, N_a>>)}
